@@ -84,6 +84,7 @@ static void explore(Result& R) {
     long law_hist = 0, law_steps = 0; int depth = th ? 4 : 3;
     for (int ty = 0; ty < 5; ty++) for (auto& lp : menu) { long nh = 1; for (int d = 0; d < depth; d++) nh *= 4;
         for (long code = 0; code < nh; code++) { if (R.out_of_time(0.5)) { R.cap("deadline in the cell-cycle law block"); goto removal; } std::vector<int> h; long c = code; for (int d = 0; d < depth; d++) { h.push_back(c % 4); c /= 4; }
+            { std::string hs; for (int x : h) hs += char('0' + x); progress("mode=law\ntype=" + std::to_string(ty) + "\nparams=" + dhex(lp.growth) + " " + dhex(lp.min_vol_factor) + " " + dhex(lp.K) + " " + dhex(lp.pmax) + " " + dhex(lp.div_factor) + " " + dhex(lp.p0) + "\nhist=" + hs + "\n"); }
             std::string e = run_law(ty, lp, h, &law_steps); law_hist++;
             if (e.rfind("exception", 0) == 0) { R["law_histories_ended_by_exception"]++; continue; }
             if (!e.empty()) { std::string hs; for (int x : h) hs += char('0' + x); R.violation(clause_of(e) + "|type=" + std::to_string(ty), "cell type " + std::to_string(ty) + ", parameters " + law_json(lp) + ", scaling history " + hs + ": " + e, "mode=law\ntype=" + std::to_string(ty) + "\nparams=" + dhex(lp.growth) + " " + dhex(lp.min_vol_factor) + " " + dhex(lp.K) + " " + dhex(lp.pmax) + " " + dhex(lp.div_factor) + " " + dhex(lp.p0) + "\nhist=" + hs + "\n"); }
